@@ -164,7 +164,7 @@ def gen_cases(tier, seed):
         add({"op": "exact", "y": [core.rat(v) for v in y], "w": [core.rat(v) for v in w], "lam": core.rat(lam), "wkind": kind})
     # float leg: compiled kernel
     sizes = [4, 5, 6, 7, 8, 10, 16, 24, 32, 48] if quick else [4, 5, 6, 7, 8, 10, 16, 24, 32, 48, 64, 96, 128]
-    for _ in range(240 if quick else 2500):
+    for _ in range(240 if quick else 1500):
         n = rng.choice(sizes)
         kind = rng.choice(["ones", "rand01", "frac", "lead", "trail", "mid", "tiny"])
         lam = 10.0 ** rng.choice(lam_exps) * rng.choice([1.0, 1.0, rng.uniform(1, 10)])
@@ -195,7 +195,7 @@ def model_check(rep, tier):
     if r.depth < 9:
         raise core.Machinery(f"vacuous: Ws2d machine did not reach its return (depth {r.depth})")
     rep.add_mc("MCWs2dSmall n in {4,5} (pure TLA+ rationals)", r, depth=r.depth)
-    lens = "{4,5,6}" if quick else "{4,5,6,7,8}"
+    lens = "{4,5,6}" if quick else "{4,5,6,7}"
     defs = f'LensDef == {lens}\nYValsDef == {{"-2","7"}}\nWValsDef == {{"0","1","1/2"}}\nLamsDef == {{"1/1000","10"}}\n'
     r = core.must_pass(core.tlc("MCWs2dBig", MC_CFG + "INVARIANT Linear\n", defs=defs, workers=core.NCPU, timeout=7000, heap="12g"), "Ws2d BigRat")
     rep.add_mc(f"MCWs2dBig n in {lens}", r)
